@@ -1,4 +1,10 @@
-//! C23 — memory accesses are sequentially consistent (dependency queue, hook H1).
+//! C23 — memory accesses are sequentially consistent.
+//! Two streams: (Q) the DependencyQueue driven through hook H1; (B) block level: the memory edges of
+//! basic blocks built by ScheduledBasicBlock::build (table-driven handler and DefaultHandler on
+//! classical Quil programs), compared with the model and checked by chk_mem_block (Model/GraphMem.v).
+#[path = "../graphgen.rs"]
+mod graphgen;
+use graphgen::{ABlock, Info, Obs};
 use qv::{gallina as g, Args, Rng, Run};
 use quil_rs::program::scheduling::verif::memory_queue_trace;
 use quil_rs::program::scheduling::{MemoryAccessType, ScheduledGraphNode};
@@ -32,7 +38,7 @@ fn run_case(run: &mut Run, seq: &[(usize, MemoryAccessType)]) {
             .collect::<Vec<_>>(),
     );
     let st = g::list(&steps.iter().map(|d| deps(d)).collect::<Vec<_>>());
-    let coq = format!("({l}, {st}, {})", deps(&pending));
+    let coq = format!("(CQueue ({l}, {st}, {}))", deps(&pending));
     let desc = seq
         .iter()
         .map(|(n, a)| format!("{n}{}", &acc(*a)[1..]))
@@ -75,14 +81,11 @@ fn enumerate(run: &mut Run, seq: &mut Vec<(usize, MemoryAccessType)>, max: usize
 
 fn main() {
     let args = Args::parse();
-    let header = "From Coq Require Import List NArith.\nFrom QV Require Import Model.DepQueue.\nImport ListNotations.\nOpen Scope N_scope.";
-    let mut run = Run::new(
-        &args.out,
-        header,
-        "list (N * acc) * list (list dep) * list dep",
-        "failing None",
-        1500,
-    );
+    if let Some(case) = &args.replay {
+        replay(case);
+        return;
+    }
+    let mut run = Run::new(&args.out, HEADER, "c23case", "failing23", 400);
     let max = if args.thorough() { 7 } else { 5 };
     enumerate(&mut run, &mut Vec::new(), max);
     let exhaustive_cases = run.evaluations;
@@ -103,12 +106,261 @@ fn main() {
         }
         run_case(&mut run, &seq);
     }
+    let queue_cases = run.evaluations;
+    block_stream(&mut run, &mut rng, args.thorough());
+    let block_cases = run.evaluations - queue_cases;
     run.finish(
         "exhaustive: every (node, access) sequence up to the stated length where each access is R/W/C \
          and is performed by the same node as the previous access or the next node; plus seeded random \
          sequences of length 6..16. Distinct by the sequence; non-trivial = contains a conflicting \
-         pair (one side a write/capture) on two different nodes.",
+         pair (one side a write/capture) on two different nodes. Block level (one case per basic block that \
+         builds): every block up to length 3 over a 9-summary memory alphabet on 2 regions (reads, writes, \
+         read-modify-write, captures) x {no terminator, JUMP-WHEN reading r0}; random abstract blocks over 3 \
+         regions through a table-driven InstructionHandler; random and fixed classical Quil programs (MOVE, ADD, \
+         SUB, MUL, DIV, AND, IOR, XOR, NEG, NOT, EXCHANGE, LOAD, STORE, CONVERT, comparisons, read-modify-write \
+         forms, CAPTURE / RAW-CAPTURE targets, parameter reads, JUMP-WHEN / JUMP-UNLESS terminators) through the \
+         DefaultHandler; non-trivial = >= 2 instructions.",
         true,
-        serde_json::json!({"exhaustive_max_len": max, "exhaustive_cases": exhaustive_cases, "random_cases": nrand}),
+        serde_json::json!({"exhaustive_max_len": max, "exhaustive_cases": exhaustive_cases, "random_cases": nrand,
+                           "queue_cases": queue_cases, "block_cases": block_cases}),
     );
+}
+
+// ---------------------------------------------------------------------------------------------
+// block level
+
+const HEADER: &str = "From Coq Require Import List NArith.\nFrom QV Require Import Model.DepQueue Model.Graph Model.GraphMem.\nImport ListNotations.\nOpen Scope N_scope.";
+
+/// (summaries, terminator, observed result) -> `CBlock ...` with the implementation's memory edges;
+/// blocks that do not build are skipped (C22 compares the errors).
+fn block_case(infos: &[Info], term: Option<&Info>, obs: &Obs) -> Option<String> {
+    let edges = match obs {
+        Obs::Ok(e) => e,
+        Obs::Err(..) => return None,
+    };
+    let mem: Vec<String> = edges
+        .iter()
+        .filter_map(|(s, d, k)| k.strip_prefix("KMem ").map(|a| format!("({s}, {d}, {a})")))
+        .collect();
+    Some(format!(
+        "(CBlock {} {} {})",
+        g::list(&infos.iter().map(|i| i.coq()).collect::<Vec<_>>()),
+        g::option(term.map(|i| i.coq())),
+        g::list(&mem)
+    ))
+}
+
+fn mem_alphabet() -> Vec<Info> {
+    let mut v = vec![
+        Info::classical(&[0], &[]),
+        Info::classical(&[], &[0]),
+        Info::classical(&[0], &[0]),     // ADD x 1
+        Info::classical(&[1], &[0]),     // MOVE x y
+        Info::classical(&[0, 1], &[0]),  // ADD x y
+        Info::classical(&[0, 1], &[0, 1]), // EXCHANGE x y
+        Info::classical(&[1], &[1]),
+    ];
+    let mut cap = Info::rf(true, &[0], &[]);
+    cap.caps = vec![0];
+    v.push(cap);
+    let mut rfread = Info::rf(true, &[0], &[]);
+    rfread.reads = vec![0];
+    v.push(rfread);
+    v
+}
+
+fn random_mem_info(rng: &mut Rng, nregions: u64) -> Info {
+    let sub = |rng: &mut Rng, p: usize| -> Vec<u64> { (0..nregions).filter(|_| rng.chance(1, p)).collect() };
+    if rng.chance(1, 5) {
+        // RF instruction: reads parameters, captures
+        let mut i = Info::rf(rng.chance(4, 5), &[rng.below(3) as u64], &[]);
+        i.reads = sub(rng, 3);
+        if rng.chance(1, 2) {
+            i.caps = vec![rng.below(nregions as usize) as u64];
+        }
+        return i;
+    }
+    let mut i = Info::classical(&[], &[]);
+    match rng.below(6) {
+        0 => i.reads = sub(rng, 2),
+        1 => i.writes = vec![rng.below(nregions as usize) as u64],
+        2 => {
+            // read-modify-write
+            let r = rng.below(nregions as usize) as u64;
+            i.reads = vec![r];
+            i.writes = vec![r];
+            if rng.chance(1, 2) {
+                let o = rng.below(nregions as usize) as u64;
+                if o != r {
+                    i.reads.push(o);
+                    i.reads.sort();
+                }
+            }
+        }
+        3 => {
+            i.reads = sub(rng, 2);
+            i.writes = sub(rng, 2);
+        }
+        4 => {
+            let r = rng.below(nregions as usize) as u64;
+            i.reads = vec![r];
+            i.writes = vec![r];
+            i.caps = if rng.chance(1, 4) { vec![r] } else { vec![] };
+        }
+        _ => {}
+    }
+    i
+}
+
+const CLASSICAL_HEADER: &str = "DECLARE a INTEGER[2]\nDECLARE b INTEGER[2]\nDECLARE x REAL[2]\nDECLARE y REAL[2]\nDECLARE bit BIT[4]\nDECLARE raw REAL[8]\n\
+DEFFRAME 0 \"ro\":\n    SAMPLE-RATE: 1.0\nDEFFRAME 1 \"ro\":\n    SAMPLE-RATE: 1.0\nDEFFRAME 0 \"rf\":\n    SAMPLE-RATE: 1.0\n";
+
+const CLASSICAL: &[&str] = &[
+    "MOVE a[0] 1",
+    "MOVE a[0] b[0]",
+    "MOVE b[1] a[1]",
+    "MOVE x[0] 1.5",
+    "MOVE y[0] x[0]",
+    "MOVE a[1] a[0]",
+    "ADD a[0] 1",
+    "ADD a[0] b[0]",
+    "ADD a[0] a[1]",
+    "SUB b[0] 2",
+    "SUB x[0] y[0]",
+    "MUL x[1] 2.0",
+    "MUL a[0] a[0]",
+    "DIV y[0] x[1]",
+    "AND bit[0] bit[1]",
+    "AND bit[0] 1",
+    "IOR bit[2] bit[0]",
+    "XOR bit[1] 1",
+    "XOR bit[3] bit[3]",
+    "NEG a[0]",
+    "NEG x[0]",
+    "NOT bit[0]",
+    "EXCHANGE a[0] b[0]",
+    "EXCHANGE x[0] y[1]",
+    "EXCHANGE a[0] a[1]",
+    "LOAD a[0] b a[1]",
+    "LOAD x[0] y a[0]",
+    "LOAD a[0] a a[1]",
+    "STORE b a[0] a[1]",
+    "STORE y a[0] 2.5",
+    "STORE a a[0] 3",
+    "CONVERT x[0] a[0]",
+    "CONVERT a[1] bit[0]",
+    "EQ bit[0] a[0] b[0]",
+    "EQ bit[1] a[0] 3",
+    "GT bit[2] x[0] y[0]",
+    "LE bit[0] a[1] a[0]",
+    "LT bit[3] x[1] 0.5",
+    "NOP",
+    "PRAGMA marker",
+    "CAPTURE 0 \"ro\" flat(duration: 1.0, iq: 1.0) bit[0]",
+    "NONBLOCKING CAPTURE 1 \"ro\" flat(duration: 1.0, iq: 1.0) bit[1]",
+    "RAW-CAPTURE 0 \"ro\" 1.0 raw",
+    "CAPTURE 0 \"ro\" flat(duration: x[0], iq: 1.0) bit[2]",
+    "SHIFT-PHASE 0 \"rf\" x[0]",
+    "SET-FREQUENCY 0 \"rf\" 2*y[1]",
+    "PULSE 0 \"rf\" flat(duration: 1.0, iq: x[1])",
+    "SET-SCALE 0 \"rf\" 0.5",
+    "MOVE raw[0] x[0]",
+    "ADD x[0] raw[1]",
+];
+
+const FIXED_CLASSICAL: &[&str] = &[
+    "ADD a[0] 1\nMOVE b[0] a[0]\n",
+    "ADD a[0] 1\nMUL a[0] 2\n",
+    "MOVE b[0] a[0]\nADD a[0] 1\nMOVE b[1] a[0]\n",
+    "NOT bit[0]\nJUMP-WHEN @l bit[0]\n",
+    "XOR bit[1] 1\nAND bit[0] bit[1]\nJUMP-UNLESS @l bit[0]\n",
+    "CAPTURE 0 \"ro\" flat(duration: 1.0, iq: 1.0) bit[0]\nMOVE bit[1] bit[0]\nNOT bit[0]\n",
+    "RAW-CAPTURE 0 \"ro\" 1.0 raw\nMOVE x[0] raw[0]\nMOVE raw[1] 0.0\n",
+    "NEG x[0]\nSHIFT-PHASE 0 \"rf\" x[0]\nNEG x[0]\n",
+    "EXCHANGE a[0] b[0]\nEXCHANGE a[0] b[0]\nADD b[0] 1\n",
+    "LOAD a[0] a a[1]\nSTORE a a[0] 3\nLOAD b[0] a a[0]\n",
+    "MOVE a[0] 1\nMOVE b[0] 2\nLABEL @m\nADD a[0] b[0]\nJUMP-WHEN @m bit[0]\nMOVE b[1] a[0]\nHALT\n",
+];
+
+fn block_stream(run: &mut Run, rng: &mut Rng, thorough: bool) {
+    let fmt: graphgen::CaseFmt = &block_case;
+    // exhaustive small scope
+    let alpha = mem_alphabet();
+    let terms: Vec<Option<(u8, Info)>> = vec![None, Some((2, Info::control(&[0])))];
+    fn rec(run: &mut Run, fmt: graphgen::CaseFmt, alpha: &[Info], terms: &[Option<(u8, Info)>], cur: &mut Vec<Info>, max: usize) {
+        if !cur.is_empty() {
+            for t in terms.iter() {
+                graphgen::run_abstract_with(run, &[ABlock { infos: cur.clone(), term: t.clone() }], "blk-exh", fmt);
+            }
+        }
+        if cur.len() == max {
+            return;
+        }
+        for a in alpha.iter() {
+            cur.push(a.clone());
+            rec(run, fmt, alpha, terms, cur, max);
+            cur.pop();
+        }
+    }
+    rec(run, fmt, &alpha, &terms, &mut vec![], if thorough { 4 } else { 3 });
+    // fixed classical programs
+    for t in FIXED_CLASSICAL {
+        graphgen::run_e2e_text_with(run, &format!("{CLASSICAL_HEADER}{t}"), "blk-fixed", fmt);
+    }
+    // random abstract blocks
+    let (na, nq) = if thorough { (6000, 8000) } else { (350, 500) };
+    for _ in 0..na {
+        let nregions = rng.range(1, 3) as u64;
+        let len = rng.range(2, 10);
+        let infos: Vec<Info> = (0..len).map(|_| random_mem_info(rng, nregions)).collect();
+        let term = match rng.below(3) {
+            0 => None,
+            1 => Some((2u8, Info::control(&[rng.below(nregions as usize) as u64]))),
+            _ => Some((1u8, Info::control(&[]))),
+        };
+        graphgen::run_abstract_with(run, &[ABlock { infos, term }], "blk-rnd", fmt);
+    }
+    // random classical Quil programs, DefaultHandler
+    for _ in 0..nq {
+        let mut text = String::from(CLASSICAL_HEADER);
+        let nblocks = if rng.chance(1, 4) { 2 } else { 1 };
+        for bi in 0..nblocks {
+            if bi > 0 {
+                text.push_str(&format!("LABEL @b{bi}\n"));
+            }
+            for _ in 0..rng.range(2, 9) {
+                text.push_str(*rng.pick(CLASSICAL));
+                text.push('\n');
+            }
+            match rng.below(5) {
+                0 => text.push_str(&format!("JUMP-WHEN @b{} bit[{}]\n", rng.below(nblocks), rng.below(4))),
+                1 => text.push_str(&format!("JUMP-UNLESS @b{} bit[{}]\n", rng.below(nblocks), rng.below(4))),
+                2 => text.push_str("HALT\n"),
+                _ => {}
+            }
+        }
+        graphgen::run_e2e_text_with(run, &text, "blk-quil", fmt);
+    }
+}
+
+fn replay(case: &str) {
+    println!("replaying: {case}");
+    let tmp = std::env::temp_dir().join("qv-c23-replay");
+    let mut run = Run::new(&tmp, HEADER, "c23case", "failing23", 10);
+    let fmt: graphgen::CaseFmt = &block_case;
+    if let Some(rest) = case.strip_prefix("A ") {
+        let b = ABlock::parse(rest).expect("abstract block");
+        let (text, _) = graphgen::concretise(&[b.clone()]);
+        println!("program:\n{text}");
+        graphgen::run_abstract_with(&mut run, &[b], "replay", fmt);
+    } else if let Some(rest) = case.strip_prefix("Q ") {
+        let body = rest.split_once(" of: ").map(|x| x.1).unwrap_or(rest).replace("; ", "\n");
+        println!("program body:\n{body}");
+        let text = if body.starts_with("DECLARE") { body } else { format!("{CLASSICAL_HEADER}{body}") };
+        graphgen::run_e2e_text_with(&mut run, &text, "replay", fmt);
+    } else {
+        println!("queue case (replay by hand through memory_queue_trace): {case}");
+    }
+    run.finish("replay", false, serde_json::json!({}));
+    println!("{}", std::fs::read_to_string(tmp.join("shard_0.v")).unwrap_or_default());
 }
